@@ -22,8 +22,31 @@ COQ_TARGETS = ["theories/Model/Inspect.vo", "theories/Model/InspectEq.vo", "theo
 _orig_base_make = lib.Run.base_make
 
 
+_CHAIN = ["Model/Inspect", "Model/InspectCache", "Model/InspectSpec", "Model/InspectEq", "Proofs/InspectLemmas"]
+
+
+def _drop_stale_vo():
+    """without usable dependencies make does not rebuild a .vo whose REQUIRED file changed: from the first of my
+    files that is newer than its .vo, remove that .vo and all later ones of the chain (under the build lock)"""
+    import fcntl
+    with open(os.path.join(lib.COQ, ".lock"), "w") as lock:
+        fcntl.flock(lock, fcntl.LOCK_EX)
+        try:
+            stale = False
+            for f in _CHAIN:
+                v, vo = os.path.join(lib.THEORIES, f + ".v"), os.path.join(lib.THEORIES, f + ".vo")
+                if not stale and (not os.path.exists(vo) or os.path.getmtime(v) > os.path.getmtime(vo)):
+                    stale = True
+                if stale and os.path.exists(vo):
+                    os.unlink(vo)
+        finally:
+            fcntl.flock(lock, fcntl.LOCK_UN)
+
+
 def _base_make_retry(self, targets=()):
     ok = False
+    if self.prop == "C17":
+        _drop_stale_vo()
     for _ in range(6):
         n = len(self.obligations)
         ok = _orig_base_make(self, targets)
@@ -466,7 +489,7 @@ def get_cat() -> Cat:
 
 THEOREMS = ["C17_tables_ok", "C17_agrees", "C17_total", "C17_spelling_origin", "C17_spelling", "C17_spelling_union",
             "C17_abstract_unmapped", "C17_origin_concrete", "C17_stable",
-            "C17_refuted_alias_chain", "C17_refuted_alias_alias", "C17_refuted_callable_class",
+            "C17_refuted_alias_chain", "C17_refuted_alias_alias",
             "C17_refuted_raw_generic", "C17_refuted_spelling_subscripted",
             "C17_refuted_cache_spelling", "C17_refuted_union_by_name"]
 
